@@ -53,6 +53,8 @@ def gen_case(seed: int, prop: str, tier: str) -> dict:
         case["aad"] = rng.choice([True, True, False])
         case["output_exists"] = rng.random() < 0.3
         # how the CLI is invoked: the documented form, or with the output option left out / other spellings
+        # one in six envelope workloads decrypts a synthetic envelope of 4..33 MiB instead of the 100 KiB sample
+        case["big_env"] = rng.randrange(14) if rng.random() < 0.17 else None
         case["argv"] = rng.choice(["full", "full", "full", "no_output", "no_keystore", "only_envelope", "long_opts", "envelope_no_ext",
                                     "output_dir", "output_dir_no_ext"])
     elif kind == "hyperv":
@@ -283,8 +285,20 @@ def run_case(case: dict) -> RunResult:
 
             work.append(("vmtar", w_tar))
         elif kind in ("envelope", "cli"):
-            world.fs.add(d + "/local.tgz.ve", fixtures.simfile("local.tgz.ve"))
-            world.fs.add(d + "/encryption.info", fixtures.simfile("encryption.info"))
+            if case.get("big_env") is not None:
+                from hvsim.engines import cryptosim
+
+                ecfg = cryptosim.env_cfg(case["seed"] % 1000, cryptosim.BIG_K + 2 + case["big_env"])
+                ecfg["aad"] = "ESXConfiguration"
+                blob, _, _, _, _, ks_text, _ = cryptosim.build_env(ecfg)
+                ef, kf = SimFile(), SimFile()
+                ef.write(0, blob)
+                kf.write(0, ks_text.encode())
+                world.fs.add(d + "/local.tgz.ve", ef)
+                world.fs.add(d + "/encryption.info", kf)
+            else:
+                world.fs.add(d + "/local.tgz.ve", fixtures.simfile("local.tgz.ve"))
+                world.fs.add(d + "/encryption.info", fixtures.simfile("encryption.info"))
             out = d + "/out/decrypted.tgz"
             world.fs.mkdir(d + "/out")
             if case["output_exists"]:
@@ -426,6 +440,8 @@ def run_case(case: dict) -> RunResult:
     res.probes["monitor.kind_" + kind] = 1
     if book.items:
         res.probes["monitor.bytesio_handle"] = 1
+    if case.get("big_env") is not None:
+        res.probes["monitor.envelope_synthetic_4_to_33_MiB"] = 1
     if kind == "vmtar" and case.get("arch"):
         a = case["arch"]
         res.probes["monitor.vmtar_synthetic_" + a["wrap"] + ("_visor" if a["visor"] else "_plain")] = 1
